@@ -49,15 +49,18 @@ Lemma delay_reads_back_small :
   wasm_run 0 F64_44100 [OStateDelay F64_5 F64_ONE 2; OStateDelay F64_10 F64_ONE 2] = [IWords [0]; IWords [F64_5]].
 Proof. vm_compute. split; reflexivity. Qed.
 
-(* 4. array index +infinity: the VM's GetArrayElem takes element 0 (`if !index_val.is_finite() { 0 }`), the WASM side
-      converts with i64.trunc_sat_f64_s (i64::MAX) and the host clamps to the LAST element (hypothesis of vm_pre:
-      the index is not +infinity).  fn dsp(){ let a = [10.0,20.0,30.0]  a[1.0/0.0] } plays 10 on the VM, 30 on WASM. *)
-Definition w_pinf : list op := [OArrayNew 1 [VNum F64_10; VNum F64_20; VNum F64_30]; OArrayGet (VArr 0) F64_PINF 1].
-Lemma index_pinf_differs :
-  spec_run (spec_init 0 0 F64_44100) w_pinf = [SArrH 0; SVals [VNum F64_30]] /\
-  vm_run 0 w_pinf = [IHandle 4294967297; IWords [F64_10]] /\
-  wasm_run 0 F64_44100 w_pinf = [IHandle 1; IWords [F64_30]] /\
-  pre_run vm_pre (spec_init 0 0 F64_44100) w_pinf = false /\
+(* 4. (REPAIRED by commit 15d0817) array index +infinity: the VM's GetArrayElem used to take element 0
+      (`if !index_val.is_finite() { 0 }`) while the WASM side converts with i64.trunc_sat_f64_s (i64::MAX) and the host
+      clamps to the LAST element: fn dsp(){ let a = [10.0,20.0,30.0]  a[1.0/0.0] } played 10 on the VM, 30 on WASM.
+      The VM now casts with saturation and clamps like the contract: both take the last element, and the hypotheses
+      of both refinement theorems hold at the former witness. *)
+Definition w_pinf : list op := [OArrayNew 1 [VNum F64_10; VNum F64_20; VNum F64_30]; OArrayGet (VArr 0) F64_PINF 1;
+                                OArrayGet (VArr 0) F64_NINF 1; OArrayGet (VArr 0) F64_NAN 1].
+Lemma index_pinf_agrees :
+  spec_run (spec_init 0 0 F64_44100) w_pinf = [SArrH 0; SVals [VNum F64_30]; SVals [VNum F64_10]; SVals [VNum F64_10]] /\
+  vm_run 0 w_pinf = [IHandle 4294967297; IWords [F64_30]; IWords [F64_10]; IWords [F64_10]] /\
+  wasm_run 0 F64_44100 w_pinf = [IHandle 1; IWords [F64_30]; IWords [F64_10]; IWords [F64_10]] /\
+  pre_run vm_pre (spec_init 0 0 F64_44100) w_pinf = true /\
   pre_run wasm_pre (spec_init 0 0 F64_44100) w_pinf = true.
 Proof. vm_compute. repeat split. Qed.
 
